@@ -351,7 +351,9 @@ def rank_demand(t):
 
 class C02(Family):
     prop = "C02"
-    extra_modules = ["CtrlVerif.Props.C02Tree"]      # tree theorem (structural induction)
+    extra_modules = ["CtrlVerif.Props.C02Tree",      # tree theorem (structural induction)
+                     "CtrlVerif.Props.C02Glue",      # run-time layer = typed layer, per operator
+                     "CtrlVerif.Props.C02GlueTree"]  # run-time tree theorem, driver dispatch
     externals = ["numpy.linalg.solve / scipy.linalg.inv / matrix_rank (the model uses det != 0 and "
                  "the certified inverse det^-1 * adjugate)",
                  "numpy.linalg.svd in the harness (conditioning guard of the rank tests: an error is "
